@@ -84,6 +84,9 @@ var positions = []position{
 	{"pattern-predicate", "string", lit("match (n) where (n)-[:E]->({name: %s}) return n"), nil},
 	{"quantifier", "string", lit("match (n) where any(x in n.list where x = %s) return n"), nil},
 	{"coalesce", "string", lit("match (n) where coalesce(n.name, %s) = 'x' return n"), nil},
+	{"duration-literal", "string", lit("match (n) where n.seen < datetime() - duration(%s) return n"), nil},
+	{"date-literal", "string", lit("match (n) where n.seen < date(%s) return n"), nil},
+	{"split-separator", "string", lit("match (n) return split(n.name, %s) as parts"), nil},
 	{"contains", "like-contains", lit("match (n) where n.name contains %s return n"), nil},
 	{"starts-with", "like-prefix", lit("match (n) where n.name starts with %s return n"), nil},
 	{"ends-with", "like-suffix", lit("match (n) where n.name ends with %s return n"), nil},
